@@ -5,4 +5,4 @@ print('manifest ok: checks', len(m['checks']), 'n/a', len(m['not_applicable']))
 s=json.load(open('/root/.vp/EVIDENCE.schema.json'))
 for f in sorted(glob.glob('/verif/evidence/*.json')):
     e=json.load(open(f)); jsonschema.validate(e,s)
-    c=e['coverage']; print(f.split('/')[-1], e['tier'], 'eval', c['evaluations'], 'nontrivial', c['distinct_nontrivial'], 'viol', e.get('violations'), 'wall', round(e['wall_s'],1))
+    c=e['coverage']; print(f.split('/')[-1], e['tier'], 'eval', c.get('evaluations'), 'nontrivial', c.get('distinct_nontrivial'), 'viol', e.get('violations'), 'wall', round(e['wall_s'],1))
